@@ -164,6 +164,9 @@ func checkC03(c *Ctx) {
 			c.decide("DOM-wrong-kind", "GetNonMembershipProof builds neighbour proof", l.ipos(in), guardsEffect(gs, in), "only after the key was found absent", "a neighbour proof is built without the absence test")
 		}
 	}
+	// ---- the version a proof's leaf / inner ops carry is the node key's version: it must be the version the node was hashed with
+	c.rule("OWN-node-version", "a node's version (hashed into it, and copied into proof ops) is fixed when the node is created or first keyed", 1)
+	checkNodeVersionOwner(c)
 	// ---- neighbours of an absent key
 	c.rule("TABLE-neighbours", "absence proof: left neighbour = rank-1 (if rank >= 1), right neighbour = rank (if present), each proved by an existence proof", 5)
 	if gbi := l.Func("", "*ImmutableTree.GetByIndex"); gnm != nil && gwi != nil && cep != nil && gbi != nil {
